@@ -26,14 +26,14 @@ type Op14 struct {
 }
 
 type Case14 struct {
-	Parser  string   `json:"parser"` // "package", "default", a predefined profile name, or "options"
-	Opts    []Opt16  `json:"opts,omitempty"`
-	Canon   bool     `json:"canon,omitempty"`
-	Bases   []B      `json:"bases"`
-	Touched []bool   `json:"touched"` // base i had SearchParams() and getters called after parsing (lazily created state exists)
+	Parser  string  `json:"parser"` // "package", "default", a predefined profile name, or "options"
+	Opts    []Opt16 `json:"opts,omitempty"`
+	Canon   bool    `json:"canon,omitempty"`
+	Bases   []B     `json:"bases"`
+	Touched []bool  `json:"touched"` // base i had SearchParams() and getters called after parsing (lazily created state exists)
 	// Setup[i]: operations applied sequentially to base i before it is shared (setters; "resolve"
 	// replaces the base by base.Parse(value)): a read-only URL may have any history behind it
-	Setup [][]Op `json:"setup,omitempty"`
+	Setup   [][]Op   `json:"setup,omitempty"`
 	Scripts [][]Op14 `json:"scripts"` // one script per goroutine
 }
 
